@@ -86,6 +86,8 @@ class ExitInformation(object):
             return "Warning (max false good steps): " + self.msg
         elif self.flag == EXIT_EVAL_ERROR:
             return "Error (function evaluation): " + self.msg
+        elif self.flag == EXIT_AUTO_DETECT_RESTART_WARNING:
+            return "Warning (auto-detected restart): " + self.msg
         else:
             return "Unknown exit flag: " + self.msg
 
